@@ -268,6 +268,20 @@ def t_masks(D, N):
     return True, ""
 
 
+def t_shape_helpers(D, N):
+    """space_indices, spatial_shape, wavenumber_shape agree with the arrays the library builds"""
+    ex, jnp = _ex()
+    sp = ex.spectral
+    if tuple(sp.space_indices(D)) != tuple(range(-D, 0)):
+        return False, f"space_indices({D}) = {sp.space_indices(D)}"
+    if tuple(sp.spatial_shape(D, N)) != (N,) * D or tuple(sp.wavenumber_shape(D, N)) != (N,) * (D - 1) + (N // 2 + 1,):
+        return False, f"spatial_shape / wavenumber_shape: {sp.spatial_shape(D, N)}, {sp.wavenumber_shape(D, N)}"
+    u = jnp.zeros((1,) + (N,) * D)
+    if tuple(np.asarray(ex.fft(u)).shape[1:]) != tuple(sp.wavenumber_shape(D, N)) or tuple(np.asarray(sp.build_wavenumbers(D, N)).shape[1:]) != tuple(sp.wavenumber_shape(D, N)):
+        return False, "wavenumber_shape differs from the shape of fft(u) / build_wavenumbers"
+    return True, ""
+
+
 def t_grid_sizes(L, lo, hi):
     """make_grid returns exactly N points (N + 1 with full=True), the last one below L, for EVERY N in [lo, hi) and this L: a float
     step (arange(0, L, L/N)) would give N + 1 points for particular (L, N)"""
@@ -310,7 +324,7 @@ def t_grid(D, N, L, full, zero_centered, xy):
     return True, ""
 
 
-TESTS = dict(grid_sizes=t_grid_sizes, grid=t_grid, masks=t_masks, roundtrip=t_roundtrip, single_mode=t_single_mode, coef_extraction=t_coef_extraction, xy_pipeline=t_xy_pipeline)
+TESTS = dict(shape_helpers=t_shape_helpers, grid_sizes=t_grid_sizes, grid=t_grid, masks=t_masks, roundtrip=t_roundtrip, single_mode=t_single_mode, coef_extraction=t_coef_extraction, xy_pipeline=t_xy_pipeline)
 
 
 def witness(ctx):
@@ -321,6 +335,7 @@ def witness(ctx):
     for L in (1.0, 3.0, 5.0, 2 * np.pi, 2.9) + ((0.1, 10.0, 7.0, 100.0) if deep else ()):
         ctx.check("grid_sizes", dict(L=L, lo=2, hi=131 if not deep else 300))
     for D, N in dn:
+        ctx.check("shape_helpers", dict(D=D, N=N))
         for full, zc in itertools.product((False, True), repeat=2):
             for xy in ((False, True) if D >= 2 else (False,)):
                 ctx.check("grid", dict(D=D, N=N, L=2.9, full=full, zero_centered=zc, xy=xy))
